@@ -1023,6 +1023,10 @@ class Interp:
       return out
     if fname in self.hooks:
       return self.hooks[fname](args, kwargs)
+    if fname in ('np.frombuffer', 'numpy.frombuffer') and len(args) == 1 and isinstance(args[0], (bytes, bytearray)) \
+        and isinstance(kwargs.get('dtype'), Ext) and kwargs['dtype'].name in ('np.uint8', 'np.int8') and set(kwargs) == {'dtype'}:
+      vals_ = list(args[0]) if kwargs['dtype'].name == 'np.uint8' else [b - 256 if b > 127 else b for b in args[0]]
+      return NdArr((len(vals_),), vals_, 'i')
     if fname in ('np.issubdtype', 'numpy.issubdtype') and len(args) == 2 and all(isinstance(a, Ext) and a.value is None for a in args):
       r = _issubdtype(args[0].name, args[1].name)
       if r is not None:
